@@ -219,12 +219,19 @@ fn check_views(p: &Plist) {
 }
 
 fn build(nlines: usize, menu: &[usize]) -> Option<Plist> {
+    build_tagged(nlines, menu, 0)
+}
+
+/// `tags` = 0: every line carries its own position as argument suffix (all lines distinct); otherwise the suffix is
+/// one of `tags` values chosen per line, so that lines may repeat verbatim
+fn build_tagged(nlines: usize, menu: &[usize], tags: usize) -> Option<Plist> {
     let mut text: Vec<u8> = Vec::new();
     let k = sym::choose("nlines", nlines + 1);
     let mut i = 0;
     while i < k {
         let kind = menu[sym::choose("kind", menu.len())];
-        text.extend_from_slice(&line(kind, i));
+        let t = if tags == 0 { i } else { sym::choose("tag", tags) };
+        text.extend_from_slice(&line(kind, t));
         text.push(b'\n');
         i += 1;
     }
@@ -244,6 +251,17 @@ pub fn h_all_kinds() {
 pub fn h_files() {
     match build(sym::bound(6, 7), &[0, 1, 2, 3, 5]) {
         Some(p) => check_views(&p),
+        None => sym::check("C15/parses", false),
+    }
+}
+
+/// repeated lines: the same file, dependency, conflict, directory, name or display line may occur several times
+pub fn h_repeats() {
+    match build_tagged(sym::bound(3, 4), &[0, 1, 10, 11, 12, 13, 14, 15, 16], 2) {
+        Some(p) => {
+            sym::cover("repeated-dep", p.depends().len() > 1 && p.depends()[0] == p.depends()[1]);
+            check_views(&p)
+        }
         None => sym::check("C15/parses", false),
     }
 }
